@@ -61,7 +61,11 @@ def workdir(pid):
 
 
 MAX_CPU_GAP = [0.0]  # largest processor time any driver spent between two events in this run (reported in the evidence)
-STALL_CPU = 420      # seconds of the driver's own processor time without a new event => the library hangs
+# Seconds of the driver's own processor time with neither a finished event nor a heartbeat (a guarded library call
+# returning) => one library call is still running => the library hangs.  The slowest legitimate single call is brotli
+# at quality 11 on the multi-megabyte inputs of C14: ~8 s (quick, 0.4 MB) and ~180 s (thorough, 9 MB).
+STALL_CPU = 420
+STALL_CPU_THOROUGH = 1800
 
 
 def _cpu_seconds(pid):
@@ -102,6 +106,7 @@ def pmv(args, timeout=1800, check=True, env=None, stats=None):
     th = threading.Thread(target=lambda: chunks.extend(iter(proc.stdout.readline, "")), daemon=True)
     th.start()
     t0 = time.time()
+    stall_cpu = STALL_CPU_THOROUGH if ("--tier" in args and args[args.index("--tier") + 1] == "thorough") else STALL_CPU
     mark, cpu_at_mark = (-1, -1), 0.0
     while proc.poll() is None:
         time.sleep(0.5)
@@ -111,7 +116,7 @@ def pmv(args, timeout=1800, check=True, env=None, stats=None):
             MAX_CPU_GAP[0] = max(MAX_CPU_GAP[0], cpu - cpu_at_mark if mark != (-1, -1) else cpu)
         if (size, len(chunks)) != mark:
             mark, cpu_at_mark = (size, len(chunks)), (cpu or 0.0)
-        elif cpu is not None and cpu - cpu_at_mark > STALL_CPU:
+        elif cpu is not None and cpu - cpu_at_mark > stall_cpu:
             proc.kill(); proc.wait()
             n_ev = 0
             last = ""
@@ -120,7 +125,7 @@ def pmv(args, timeout=1800, check=True, env=None, stats=None):
                     for line in f:
                         if line.endswith("\n"):
                             n_ev += 1; last = line
-            raise LibraryHang(f"pmv {' '.join(args[:2])}: no further event after {n_ev} events in {STALL_CPU} s of processor time",
+            raise LibraryHang(f"pmv {' '.join(args[:2])}: no further event after {n_ev} events in {stall_cpu} s of processor time",
                               {"driver_args": args, "events_completed": n_ev, "last_completed_event": last[:4000]})
         if time.time() - t0 > timeout:
             proc.kill(); proc.wait()
